@@ -330,6 +330,31 @@ def oracle(ctx):
         if got != want:
             ctx.violation('a tal:repeat whose iterable expression mentions its own loop variable must iterate the outer value',
                           {'src': src, 'kwargs': repr(kw)}, expected=want, actual=got)
+    # another template rendered from inside a loop body (passed in as a variable), looping on the same variable name — and on another
+    # one: each render has its own repeat dictionary, the outer loop's positions are what they were
+    for inner_name in ('x', 'y'):
+        for rows in ([['a1', 'a2', 'a3'], ['b1'], ['c1', 'c2']], [[], ['z']], [['q']] * 4):
+            sub = PageTemplate('<b tal:repeat="%s items">${%s}.${repeat.%s.number}/${repeat.%s.length}</b>' % ((inner_name,) * 4))
+            outer = PageTemplate('<i tal:repeat="x rows">${repeat.x.index}|${repeat.x.number}|${repeat.x.length}|${repeat.x.start}|${repeat.x.end}|'
+                                 '${structure: sub(items=x)}|${repeat.x.index}|${repeat.x.number}|${repeat.x.length}|${repeat.x.even}|'
+                                 '${repeat.x.letter}|${repeat.x.Roman}|${repeat.x.end}</i>')
+            want = []
+            n = len(rows)
+            for i, r in enumerate(rows):
+                inner = '\n'.join('<b>%s.%d/%d</b>' % (v, j + 1, len(r)) for j, v in enumerate(r))
+                ra = ref_attrs(i, n)
+                want.append('<i>%d|%d|%d|%s|%s|%s|%d|%d|%d|%s|%s|%s|%s</i>' % (i, i + 1, n, ra['start'], ra['end'], inner, i, i + 1, n, ra['even'],
+                                                                            ra['letter'], ra['Roman'], ra['end']))
+            want = '\n'.join(want)
+            ctx.count('evaluations')
+            nt += 1
+            try:
+                got = outer(rows=rows, sub=sub)
+            except Exception as e:
+                got = {'exc': type(e).__name__, 'msg': str(e).split('\n')[0][:100]}
+            if got != want:
+                ctx.violation('a template rendered from inside a loop body must not disturb the repeat variables of the loop that called it',
+                              {'outer': outer.body, 'sub': sub.body, 'rows': repr(rows)}, expected=want, actual=got)
     ctx.counters['nontrivial'] = nt + 12 * 61
     ctx.sample({'template': cases[0][0], 'iterable': cases[0][1], 'length': cases[0][2], 'expected': cases[0][3]})
 
@@ -344,6 +369,11 @@ def reproduce_finding(ctx, f):
     if f['id'] == 'D-08a':
         out = PageTemplate(FINDINGS['D-08a'])()
         return '<b>a</b>1</i>' in out and '<b>a</b>2</i>' not in out
+    if f['id'] == 'D-08c':
+        try:
+            return PageTemplate('<i tal:repeat="global (a, b) ps">${a}${b}</i>')(ps=[iter([1, 2])]) != '<i>12</i>'
+        except ValueError:
+            return True
     if f['id'] == 'D-08b':
         out = PageTemplate('<ul>\n\t<li tal:repeat="x [1, 2]">${x}</li>\n</ul>')()
         return '</li>\n <li>' in out
